@@ -16,6 +16,7 @@ const (
 	rkLit ropeKind = iota
 	rkAtom
 	rkItoa
+	rkEnum // one of a finite vocabulary; t is an Int index term
 )
 
 type ropePart struct {
@@ -26,6 +27,7 @@ type ropePart struct {
 	maxLen int     // atom
 	minLen int     // atom
 	in     *symInt // itoa source
+	vocab  []string // enum
 }
 
 type symStr struct {
@@ -84,8 +86,86 @@ func partTerm(p ropePart) *term {
 			return pos
 		}
 		return tIte(tCmp(">=", p.t, mkInt64(0)), pos, mk("str.++", sStr, mkStrConst("-"), mk("str.from_int", sStr, tNeg(p.t))))
+	case rkEnum:
+		// ite chain over the vocabulary
+		out := mkStrConst(p.vocab[len(p.vocab)-1])
+		for k := len(p.vocab) - 2; k >= 0; k-- {
+			out = tIte(tEq(p.t, mkInt64(int64(k))), mkStrConst(p.vocab[k]), out)
+		}
+		return out
 	}
 	panic("bad rope part")
+}
+
+// newEnum declares a string input that ranges over a finite vocabulary (encoded as an Int index).
+func (w *Worker) newEnum(name string, vocab []string) value {
+	t := w.declare(name, sInt)
+	w.inputs[len(w.inputs)-1].vocab = vocab
+	w.assertPC(tAnd(tCmp(">=", t, mkInt64(0)), tCmp("<=", t, mkInt64(int64(len(vocab)-1)))))
+	return &symStr{parts: []ropePart{{kind: rkEnum, t: t, vocab: vocab}}, w: w}
+}
+
+func sameVocab(a, b []string) bool {
+	if len(a) != len(b) {
+		return false
+	}
+	for k := range a {
+		if a[k] != b[k] {
+			return false
+		}
+	}
+	return true
+}
+
+// enumEq decides equality of an enum string with a literal or another enum over the same
+// vocabulary in integer arithmetic (no string theory).
+func enumEq(a, b []ropePart) (*term, bool) {
+	isEnum := func(p []ropePart) bool { return len(p) == 1 && p[0].kind == rkEnum }
+	litOf := func(p []ropePart) (string, bool) {
+		if len(p) == 0 {
+			return "", true
+		}
+		if len(p) == 1 && p[0].kind == rkLit {
+			return p[0].lit, true
+		}
+		return "", false
+	}
+	if isEnum(b) && !isEnum(a) {
+		a, b = b, a
+	}
+	if !isEnum(a) {
+		return nil, false
+	}
+	if l, ok := litOf(b); ok {
+		var alts []*term
+		for k, v := range a[0].vocab {
+			if v == l {
+				alts = append(alts, tEq(a[0].t, mkInt64(int64(k))))
+			}
+		}
+		if len(alts) == 0 {
+			return termFalse, true
+		}
+		out := alts[0]
+		for _, x := range alts[1:] {
+			out = tOr(out, x)
+		}
+		return out, true
+	}
+	if isEnum(b) && sameVocab(a[0].vocab, b[0].vocab) {
+		distinct := true
+		seen := map[string]bool{}
+		for _, v := range a[0].vocab {
+			if seen[v] {
+				distinct = false
+			}
+			seen[v] = true
+		}
+		if distinct {
+			return tEq(a[0].t, b[0].t), true
+		}
+	}
+	return nil, false
 }
 
 func (s *symStr) term() *term { return ropeTerm(s.parts) }
@@ -143,6 +223,9 @@ func ropeEq(w *Worker, a, b []ropePart) *term {
 		if same {
 			return termTrue
 		}
+	}
+	if t, ok := enumEq(a, b); ok {
+		return t
 	}
 	return tEq(ropeTerm(a), ropeTerm(b))
 }
@@ -223,6 +306,12 @@ func atomsForbid(parts []ropePart, c byte) bool {
 		case rkItoa:
 			if c >= '0' && c <= '9' || c == '-' {
 				return false
+			}
+		case rkEnum:
+			for _, v := range p.vocab {
+				if strings.IndexByte(v, c) >= 0 {
+					return false
+				}
 			}
 		}
 	}
